@@ -107,7 +107,9 @@ def run_family(prop, invs, props, tier, seed, focus=None, signature_prefix="fami
     quick = tier == "quick"
     fam = "GFirst" if quick else "GFirst3"
     depth = 1 if quick else 2
-    stride = 9 if quick else 2
+    # (a second exported level costs about as much again: a sparser sample then; the diagonal
+    # schemas - every node shape - are always in it)
+    stride = (27 if then else 9) if quick else (4 if then else 2)
     phase = seed % stride
     env = {"FAM_STRIDE": stride, "FAM_PHASE": phase}
     # 1. TLC, every schema of the family
